@@ -202,6 +202,15 @@ def main(fd, verbose=0):
         util.debug("Main resource tracker is running")
 
     registry = {rtype: {} for rtype in _CLEANUP_FUNCS.keys()}
+    _verif_trace = os.environ.get("JOBLIB_VERIF_TRACE")  # verification hook
+
+    def _verif_log(**event):  # verification hook: off unless the env var is set
+        if _verif_trace:
+            import json
+
+            with open(_verif_trace, "a") as trace_file:
+                trace_file.write(json.dumps(event) + "\n")
+
     try:
         # keep track of registered/unregistered resources
         if sys.platform == "win32":
@@ -280,7 +289,19 @@ def main(fd, verbose=0):
                         sys.excepthook(*sys.exc_info())
                     except BaseException:
                         pass
+                    _verif_log(ev="error", line=repr(line)[:80])
+                else:
+                    _verif_log(
+                        ev=cmd,
+                        name=name,
+                        rtype=rtype,
+                        count=registry.get(rtype, {}).get(name, 0),
+                    )
     finally:
+        _verif_log(
+            ev="EOF",
+            left={rtype: sorted(reg) for rtype, reg in registry.items() if reg},
+        )
         # all processes have terminated; cleanup any remaining resources
         def _unlink_resources(rtype_registry, rtype):
             if rtype_registry:
